@@ -45,7 +45,7 @@ func c07Gen(t *rapid.T, r *h.Rec) c07Case {
 	switch rapid.IntRange(0, 5).Draw(t, "profile") {
 	case 0, 1:
 		c.Profile = "sql"
-		c.Spec = synth.GenSQL(t, &synth.SQLOpts{Avoid: av, OnExclude: onEx, OnClass: onCl, MaxTables: 4, Directives: true})
+		c.Spec = synth.GenSQL(t, &synth.SQLOpts{Avoid: av, OnExclude: onEx, OnClass: onCl, MaxTables: 4, Directives: true, SelfFK: true})
 	case 2:
 		c.Profile = "routes"
 		c.Routes = synth.GenRoutes(t, &synth.RouteOpts{Avoid: av, OnExclude: onEx, OnClass: onCl})
